@@ -140,12 +140,13 @@ namespace vh {
 
     inline sigjmp_buf jb;
     inline volatile sig_atomic_t armed = 0;  // inside VH_RUN?
+    inline bool strict = false;              // opt-in: a fault outside VH_RUN stops the harness (set by harnesses that only use VH_RUN)
     inline char hook_msg[256];
     enum { RC_HOOK_ABORT = 1000, RC_HOOK_UNREACHABLE = 1001 };
 
     inline void hook(int kind, char const* m)
     {
-        if (!armed) {
+        if (strict && !armed) {
             fprintf(stderr, "\nHARNESS-FAULT: abort/unreachable outside VH_RUN: %s\n", m ? m : "");
             _exit(70);
         }
@@ -154,7 +155,7 @@ namespace vh {
     }
     inline void on_signal(int s)
     {
-        if (!armed) {
+        if (strict && !armed) {
             // a fault in the harness itself, not in the code under test: fail loudly
             char const msg[] = "\nHARNESS-FAULT: signal outside VH_RUN\n";
             (void)!write(2, msg, sizeof msg - 1);
